@@ -1,9 +1,9 @@
 (* Extraction of the executable C07 model (ExtrOcamlBasic only). *)
 From Coq Require Import ExtrOcamlBasic.
 From Coq Require Extraction.
-From LJT Require Import model.Quant model.Dct.
+From LJT Require Import model.Quant model.Dct model.C07Edge.
 Extraction Language OCaml.
 Extraction "x_c07.ml" flss compute_reciprocal quantize_recip_one quantize_simd_one
   quantize_one scaled_divisor start_pass_divisors quantize_block rdiv
   maxsample centersample convsamp fdct_islow dct_table idct_islow range_limit_entry range_limit
-  forward_block inverse_block roundtrip_block.
+  forward_block inverse_block roundtrip_block expand_right_edge expand_bottom_edge.
